@@ -27,6 +27,8 @@ func natBin(name string, x int64, cx int, y int64, cy int, c int, al int, f func
 		f(out, xn, yn, c)
 		ev["r"] = proj(out.Big())
 		ev["ra"] = out.AnnouncedLen()
+		// operands after the call (an operand that is not the output must be unchanged)
+		ev["xp"], ev["yp"] = proj(xn.Big()), proj(yn.Big())
 		emit(name, ev)
 	})
 }
@@ -81,7 +83,7 @@ func runNat() {
 				natBin(o.name, x, cx, y, cy, c, sel%4, o.f)
 			}
 		}
-		sb := min(B, 6)
+		sb := min(B/3, 6)
 		for x := int64(0); x <= sb; x++ {
 			for y := int64(0); y <= sb; y++ {
 				for _, cx := range capProfiles(x) {
@@ -121,6 +123,7 @@ func runNat() {
 					ev["ok"] = b2i(ok)
 					ev["q"], ev["rem"] = proj(q.Big()), proj(rem.Big())
 					ev["qa"], ev["rema"] = q.AnnouncedLen(), rem.AnnouncedLen()
+					ev["xp"], ev["yp"] = proj(xn.Big()), proj(yn.Big())
 					emit(name, ev)
 				})
 			}
